@@ -137,3 +137,16 @@ class Effect:
   call log (Exec.ghost[name] = list of argument tuples); returns `ret` (fresh) or None."""
   def __init__(self, name, argsorts, ret=None, note=''):
     self.name, self.argsorts, self.ret, self.note = name, argsorts, ret, note
+
+
+class StarOf:
+  """`*x` inside a tuple display where x is an opaque sequence-like value"""
+  def __init__(self, v):
+    self.v = v
+
+
+class Inline:
+  """A real helper of /repo that is inlined (its AST is fetched and executed at the call site)
+  instead of being replaced by a contract."""
+  def __init__(self, target):
+    self.target = target
